@@ -11,6 +11,7 @@ use serde_json::{json, Value};
 use turmoil_net::{EnterGuard, KernelConfig, Net, Packet, Transport};
 use vcore::{Fnv, Rng};
 
+use crate::diag::Diag;
 use crate::exec::{Exec, RoundClock};
 use crate::prog::{self, Hist, Shared, SERVER_PORT};
 use crate::scn::*;
@@ -201,6 +202,7 @@ pub struct Outcome {
     pub overtakes: u64,
     pub retx_seen: u64,
     pub final_counts: Vec<(usize, usize, usize)>,
+    pub diag: Diag,
 }
 
 impl Outcome {
@@ -243,6 +245,7 @@ pub struct Wire {
     raw: Vec<Option<Packet>>,
     held: Vec<(u64, usize)>,
     sides: [Side; 2],
+    diag: Diag,
     pub mon: Mon,
     occ: BTreeMap<(Dir, Kind), u32>,
     tap: Rc<RefCell<Vec<Packet>>>,
@@ -334,6 +337,7 @@ impl Wire {
             raw: vec![],
             held: vec![],
             sides: [Side::default(), Side::default()],
+            diag: Diag::default(),
             mon: Mon::default(),
             occ: BTreeMap::new(),
             tap,
@@ -397,6 +401,7 @@ impl Wire {
             };
         };
         let len = s.payload.len();
+        self.diag.emit(dir, s);
         // ---- MSS monitor -------------------------------------------------
         if self.monitors_on {
             let mtu = if pkt.src.is_loopback() { cfg.loopback_mtu } else { cfg.mtu };
@@ -659,9 +664,13 @@ impl Wire {
         for p in tapped {
             let rec = self.on_emit(&p, true);
             let idx = rec.idx;
+            let dir = rec.dir;
             self.pkts.push(rec);
             self.raw.push(None);
             self.on_deliver(idx);
+            if let Transport::Tcp(s) = &p.payload {
+                self.diag.deliver(dir, s);
+            }
         }
         let had_out = !out.is_empty();
         let mut now: Vec<usize> = vec![];
@@ -719,6 +728,9 @@ impl Wire {
         for idx in due {
             self.on_deliver(idx);
             if let Some(p) = self.raw[idx].take() {
+                if let Transport::Tcp(s) = &p.payload {
+                    self.diag.deliver(self.pkts[idx].dir, s);
+                }
                 self.guard.as_ref().unwrap().deliver(p);
             }
         }
@@ -884,6 +896,7 @@ impl Wire {
             overtakes: self.overtakes,
             retx_seen: self.retx_seen,
             final_counts,
+            diag: self.diag.clone(),
         }
     }
 
@@ -919,6 +932,7 @@ impl Wire {
                     overtakes: 0,
                     retx_seen: 0,
                     final_counts: vec![],
+                    diag: Diag::default(),
                 }
             }
         }
